@@ -32,6 +32,25 @@ META = {
 }
 
 
+DECODER_PINS = [
+    ("vyper.codegen.core", "make_setter", "8cb38294fec3a6ff"),
+    ("vyper.codegen.core", "clamp_bytestring", "837e88565c157bbf"),
+    ("vyper.codegen.core", "clamp_dyn_array", "ff9d115b32a448e4"),
+    ("vyper.codegen.core", "_getelemptr_abi_helper", "d2b99bed40bed025"),
+    ("vyper.codegen.core", "_abi_payload_size", "0a9b106d7b4bfc3a"),
+    ("vyper.codegen.core", "_dirty_read_risk", "cfeeb37f54c7e674"),
+    ("vyper.codegen_venom.abi.abi_decoder", "clamp_bytestring", "a4618c2e63a4f02b"),
+    ("vyper.codegen_venom.abi.abi_decoder", "clamp_dyn_array", "a01259d5a0b4def8"),
+    ("vyper.codegen_venom.abi.abi_decoder", "_getelemptr_abi", "1d2c4c7b872eed31"),
+    ("vyper.codegen_venom.abi.abi_decoder", "_decode_primitive", "6783def33dc04511"),
+    ("vyper.codegen_venom.abi.abi_decoder", "_decode_bytestring", "d2a4450c75754615"),
+    ("vyper.codegen_venom.abi.abi_decoder", "_decode_dyn_array", "c26f1a926e72b714"),
+    ("vyper.codegen_venom.abi.abi_decoder", "_decode_complex", "623666e8ff9c37da"),
+    ("vyper.builtins.functions", "ABIDecode.build_IR", "ca3dd261a7184ff3"),
+    ("vyper.codegen.external_call", "_unpack_returndata", "6274bc433758bd4f"),
+]
+
+
 def directed_types():
     u8 = ("uint", 8)
     return [
@@ -189,7 +208,10 @@ def run(ctx):
     # shared ABI development (coq/STATIC, owner C06): rebuilt only if stale; C05's own files on every run
     b = ctx.coq_build(["C06/Abi.v", "C06/AbiLemmas.v", "C06/Roundtrip.v"], force=False)
     if b["ok"]:
-        b = ctx.coq_build(["C05/Dec.v", "C05/DecProofs.v", "C05/ReadsInside.v", "C05/PropsC05.v", "C05/Harness.v"])
+        b = ctx.coq_build(["C06/ZeroPad.v"], force=False)
+    if b["ok"]:
+        b = ctx.coq_build(["C05/Dec.v", "C05/DecProofs.v", "C05/ReadsInside.v", "C05/DecImpl.v", "C05/DecImplProofs.v",
+                           "C05/PropsC05.v", "C05/Harness.v"])
     harness_ok = b["ok"] or "Harness" not in str(b.get("file", "")) and "Dec.v" not in str(b.get("file", ""))
     pairs = make_pairs(ctx, 20 if quick else 90, 3)
     types = [t for t, _ in pairs]
@@ -200,7 +222,8 @@ def run(ctx):
     bases = A.coq_hex_batch([f"enc (TTuple [{A.coq_ty(t)}]) (VList [{A.coq_val(t, v)}])" for t, v in flat], "c05base")
     # ---- phase 2: expectations for the corruption stream
     sel_of = {}
-    exprs, corr = [], []
+    exprs, corr, agree_exprs = [], [], []
+
     def used(kind, j):
         u = {"mem": j % 2 == 0 or j < 8, "ret": j % 5 == 0 or j < 4, "ctor": j % 7 == 0 or j < 3}
         return (u["mem"] or u["ret"] or u["ctor"]) if kind == "pay" else u[kind]
@@ -219,10 +242,20 @@ def run(ctx):
         exprs.append(pre + (f"join (expect_len t [1;2;3;4] base {lst()})" if has_len else 'EmptyString'))
         exprs.append(pre + f"join (expect_mem t base {lst('mem')})")
         exprs.append(pre + f"join (expect_ret t base {lst('ret')})")
+        agree_exprs.append(pre + f"[impl_agree t base {lst('mem')}]")
     import time
     t0 = time.time()
     outs = A.coq_strings(exprs, "c05exp", imports=IMPORTS, shard=10, timeout=400)
     ctx.log(f"coq expectations: {len(exprs)} expressions in {time.time() - t0:.1f}s")
+    # implementation-level decoder models (DecImpl.v) on the same corrupted payloads
+    t0 = time.time()
+    sub = agree_exprs if not quick else agree_exprs[::2]
+    flags = coqrun.eval_zlists(IMPORTS, sub, "c05impl", shard=4, timeout=400)
+    ctx.corr["impl_model_agreement_sets"] = len(flags)
+    if any(f != [1] for f in flags):
+        ctx.violation("correspondence-broken", "executable ldec/vdec (DecImpl.v) disagree with accept_mem on a corruption "
+                      "(theorem impl_refines_model hypotheses violated or model bug)", {"flags": str(flags)[:400]})
+    ctx.log(f"impl models: {len(sub)} corruption sets in {time.time() - t0:.1f}s")
     # ---- jobs
     cfgs = C.configs(ctx.tier)
     if not quick:
@@ -317,6 +350,11 @@ def run(ctx):
                           "canonical_base": bl[vi].hex()}
                 ctx.violation("failing-input" if verdict == "failing" else "correspondence-broken", f"{kind}: {text}", detail)
     found = any(v["kind"] == "failing-input" for v in ctx.violations)
+    from vlib import c06_pins
+    for name, got, exp in c06_pins.check(DECODER_PINS):
+        ctx.violation("correspondence-broken", f"decoder source no longer matches the implementation-level model "
+                      f"(DecImpl.v): {name}", {"function": name, "observed": got, "pinned": exp,
+                                               "search": "corruption stream ran" + (" and found failing inputs" if found else ", no failing input")})
     if ctx.nc_mismatch:
         ctx.violation("correspondence-broken", "needs_clamp model differs from a real copy (theorem needs_clamp_complete "
                       "no longer speaks about the code)", {"mismatches": ctx.nc_mismatch[:10],
